@@ -197,6 +197,33 @@ fn replay_one(op: &str, w: &str) -> bool {
 
 static LAST_PANIC: std::sync::Mutex<String> = std::sync::Mutex::new(String::new());
 mod bigint_units;
+/// counting allocator: records the largest single allocation request since the last reset (used by the C18 bounded group to
+/// observe "no unbounded allocation from an untrusted length prefix")
+pub mod alloc_probe {
+    use std::alloc::{GlobalAlloc, Layout, System};
+    use std::sync::atomic::{AtomicUsize, Ordering};
+    static PEAK: AtomicUsize = AtomicUsize::new(0);
+    pub struct Probe;
+    unsafe impl GlobalAlloc for Probe {
+        unsafe fn alloc(&self, l: Layout) -> *mut u8 {
+            PEAK.fetch_max(l.size(), Ordering::Relaxed);
+            System.alloc(l)
+        }
+        unsafe fn dealloc(&self, p: *mut u8, l: Layout) { System.dealloc(p, l) }
+        unsafe fn realloc(&self, p: *mut u8, l: Layout, n: usize) -> *mut u8 {
+            PEAK.fetch_max(n, Ordering::Relaxed);
+            System.realloc(p, l, n)
+        }
+        unsafe fn alloc_zeroed(&self, l: Layout) -> *mut u8 {
+            PEAK.fetch_max(l.size(), Ordering::Relaxed);
+            System.alloc_zeroed(l)
+        }
+    }
+    pub fn reset() { PEAK.store(0, Ordering::Relaxed) }
+    pub fn peak() -> usize { PEAK.load(Ordering::Relaxed) }
+}
+#[global_allocator]
+static ALLOC: alloc_probe::Probe = alloc_probe::Probe;
 mod bounded;
 mod serde_units;
 
